@@ -66,6 +66,18 @@ def gen_proto_consts():
     got = re.findall(r"has_flags\(flags_str,\s*'(.)',\s*\"([A-Z]+)\"\)", b)
     if got != [(",", "FORCE"), (",", "COMPRESS")]:
         raise ExtractError(f"{p}: ClusterMapFlags::from_arg: unexpected shape {got}")
+    # compressed branch of ProxyClusterMeta::parse: both node maps are normalised (fix 23e5d8f)
+    b = fn_body(t, "parse", p)
+    if "from_compressed_data" not in b:
+        raise ExtractError(f"{p}: the first fn parse is not ProxyClusterMeta::parse")
+    loop = re.search(r"for\s+node_map\s+in\s+\[&mut local\.0,\s*&mut peer\.0\]\s*\{\s*for\s+slot_ranges\s+in\s+node_map\.values_mut\(\)\s*\{"
+                     r"\s*for\s+slot_range\s+in\s+slot_ranges\.iter_mut\(\)\s*\{\s*slot_range\.get_mut_range_list\(\)\.compact\(\);", b)
+    if not loop or b.index("from_compressed_data") > loop.start():
+        raise ExtractError(f"{p}: ProxyClusterMeta::parse: the compressed branch does not compact the range lists of local and peer "
+                           f"(expected the normalisation loop after from_compressed_data)")
+    if len(re.findall(r"\.compact\(\)", b)) != 1:
+        raise ExtractError(f"{p}: ProxyClusterMeta::parse: expected exactly one compact() call (the normalisation loop)")
+    out.append(f"def compressedBranchCompacts : Bool := true  -- {p} parse: local and peer range lists compacted after from_compressed_data")
     shape = _resp_filter_shape(fn_body(t, "from_resp", p), p, "ProxyClusterMeta::from_resp")
     out.append(f"def fromRespStrict : Bool := {'true' if shape == 'strict' else 'false'}  -- {p} from_resp element filter: {shape}")
 
